@@ -1,7 +1,7 @@
 (* C02 — correspondence / property evaluation on histories observed on the
    implementation.  Executable only. *)
 From Coq Require Import List ZArith QArith Qabs Bool.
-From GZ Require Export Lib.CheckLib Lib.RollingWindow C02.Model C02.Wrap.
+From GZ Require Export Lib.CheckLib Lib.RollingWindow C02.Model C02.Wrap C02.Conc.
 Import ListNotations.
 Open Scope Z_scope.
 
@@ -10,8 +10,11 @@ Inductive oobs :=
 | OA (shed : bool) (fl mp rt am ae cm ce : Z)
     (* Allow: verdict; flying after; maxPass() and minRt() just before;
        avgFlying after = am * 2^ae; maxFlight() just before = cm * 2^ce *)
-| OR (done : bool) (fl am ae : Z).
+| OR (done : bool) (fl am ae : Z)
     (* Pass / Fail: a promise existed; flying after; avgFlying after *)
+| OSkip.
+    (* a place-holder that keeps the operation indices aligned (forced-schedule cases: the
+       operations that start an Allow or let a dropper return are not Allow / Pass / Fail events) *)
 
 Record scase := mkCase
   { ccfg : config; ct0 : Z;
@@ -88,6 +91,7 @@ Fixpoint agree_loop (wb : bool) (s : state) (l : list (op * oobs)) : bool :=
       match ob with
       | OA shed _ _ _ _ _ _ _ => negb shed && is_grant r
       | OR done _ _ _ => eqb done (is_done r)
+      | OSkip => false
       end && agree_loop wb s' l'
   end.
 
@@ -191,6 +195,9 @@ Fixpoint prop_loop (excl wb : bool) (c : config) (t0 : Z) (mono : bool) (a : acc
   | [] => true
   | (o, ob) :: l' =>
     match o, ob with
+    | _, OSkip =>
+      prop_loop excl wb c t0 mono
+           (mkAcc (aidx a + 1) (aadm a) (apass a) (afl a) (aovers a) (ashed a) (aavg a) (alast a)) l'
     | OAllow now c1 c2, OA shed fl _ _ am ae cm ce =>
       check_allow excl wb c t0 mono a now c1 c2 shed fl cm ce
       && prop_loop excl wb c t0 mono
@@ -450,8 +457,153 @@ Definition wr_prop (excl : bool) (c : config) (t0 : Z) (l : list (wrop * wrobs))
   forallb (wr_contract_one l) l &&
   match wr_scase false c t0 l with Some sc => prop_gen excl sc | None => false end.
 
+(* ------------------------------------------------------------------ *)
+(* OVERLAPPING Allow calls under a forced schedule (harness/overlay/load/verif_c02_conc_test.go).
+   A call is parked where the code under test calls out: P1 = inside systemOverloadChecker (before the
+   call has read anything), P2 = at the drop log line (after the decision, before droppedRecently.Set
+   and the return).  [KEnter] starts a call (parks at P1); [KDecide tid] releases it with the clock and
+   CPU readings it is going to see and lets it run to its return or to P2; [KFinish tid] lets a parked
+   dropper return.  [KAllow] / [KPass] / [KFail] are whole calls.  Promise ids name the index of the
+   [KAllow] or of the [KDecide]. *)
+Inductive cop :=
+| KAllow (now c1 c2 : Z) | KPass (id now : Z) | KFail (id : Z)
+| KEnter | KDecide (tid now c1 c2 : Z) | KFinish (tid : Z).
+Inductive cobs :=
+| KA (shed : bool) (fl mp rt am ae cm ce : Z)   (* KAllow; KDecide: shed = parked at the drop log line *)
+| KR (done : bool) (fl am ae : Z)                (* KPass / KFail *)
+| KN (ok : bool) (fl am ae : Z).                 (* KEnter: parked in the checker; KFinish: has returned ErrServiceOverloaded *)
+
+(* -- agrees: the interleaving model (Conc.v) under the same schedule.  Thread i = operation i. -- *)
+Definition k_thread (ops : list cop) (id : Z) : nat :=
+  if id <? 0 then length ops else
+  match nth_error ops (Z.to_nat id) with
+  | Some (KDecide tid _ _ _) => if tid <? 0 then length ops else Z.to_nat tid
+  | _ => Z.to_nat id
+  end.
+
+Fixpoint k_decide_of (i : Z) (ops : list cop) : option (Z * Z * Z) :=
+  match ops with
+  | [] => None
+  | KDecide tid now c1 c2 :: ops' => if tid =? i then Some (now, c1, c2) else k_decide_of i ops'
+  | _ :: ops' => k_decide_of i ops'
+  end.
+
+Definition k_call (ops : list cop) (i : nat) (o : cop) : call :=
+  match o with
+  | KAllow now c1 c2 => CAllow now c1 c2
+  | KEnter => match k_decide_of (Z.of_nat i) ops with
+              | Some (now, c1, c2) => CAllow now c1 c2
+              | None => CAllow 0 0 0
+              end
+  | KPass id now => CPass (k_thread ops id) now
+  | KFail id => CFail (k_thread ops id)
+  | KDecide _ _ _ _ | KFinish _ => CFail (length ops)      (* no such thread: never moves *)
+  end.
+
+Fixpoint k_calls (ops : list cop) (i : nat) (l : list cop) : list call :=
+  match l with [] => [] | o :: l' => k_call ops i o :: k_calls ops (S i) l' end.
+
+(* run thread [tid] until it has returned (or, with [stop8], until it stands before the drop action) *)
+Fixpoint run_seg (fuel : nat) (m : machine) (tid : nat) (stop8 : bool) : machine :=
+  match fuel with
+  | O => m
+  | S f =>
+    match nth_error (snd m) tid with
+    | Some t => if (pc_done <=? tpc t)%nat || (stop8 && (tpc t =? 8)%nat) then m
+                else run_seg f (cstep m tid) tid stop8
+    | None => m
+    end
+  end.
+
+Definition thr_at (m : machine) (tid : nat) : thread :=
+  match nth_error (snd m) tid with Some t => t | None => fresh (CFail 0) end.
+Definition res_is (t : thread) (r : res) : bool :=
+  match tres t, r with
+  | Some RAdmit, RAdmit | Some RShed, RShed | Some RDone, RDone | Some RNoop, RNoop => true
+  | _, _ => false
+  end.
+
+Fixpoint k_agree (m : machine) (i : nat) (l : list (cop * cobs)) : bool :=
+  match l with
+  | [] => true
+  | (o, ob) :: l' =>
+    let sh := fst m in
+    match o, ob with
+    | KAllow now c1 c2, KA shed fl mp rt am ae cm ce =>
+      let m' := run_seg 14 m i false in
+      let '(s1, h) := hot_check sh now c1 in
+      if h && near s1 now c2 && negb (eqb shed (res_is (thr_at m' i) RShed)) then true   (* near-tie: not compared further *)
+      else eqb shed (res_is (thr_at m' i) RShed) && (pc_done <=? tpc (thr_at m' i))%nat
+           && (mp =? max_pass sh now) && (rt =? min_rt sh now) && rel_close (max_flight sh now) cm ce
+           && (fl =? flying (fst m')) && avg_close (avgFlying (fst m')) am ae && k_agree m' (S i) l'
+    | KDecide tid now c1 c2, KA shed fl mp rt am ae cm ce =>
+      let t := if tid <? 0 then length (snd m) else Z.to_nat tid in
+      let m' := run_seg 14 m t true in
+      let parked := (tpc (thr_at m' t) =? 8)%nat in
+      let '(s1, h) := hot_check sh now c1 in
+      if h && near s1 now c2 && negb (eqb shed parked) then true
+      else eqb shed parked && (parked || res_is (thr_at m' t) RAdmit)
+           && (mp =? max_pass sh now) && (rt =? min_rt sh now) && rel_close (max_flight sh now) cm ce
+           && (fl =? flying (fst m')) && avg_close (avgFlying (fst m')) am ae && k_agree m' (S i) l'
+    | KEnter, KN ok fl am ae =>
+      ok && (fl =? flying sh) && avg_close (avgFlying sh) am ae && k_agree m (S i) l'
+    | KFinish tid, KN ok fl am ae =>
+      let t := if tid <? 0 then length (snd m) else Z.to_nat tid in
+      let m' := run_seg 14 m t false in
+      eqb ok (res_is (thr_at m' t) RShed)
+      && (fl =? flying (fst m')) && avg_close (avgFlying (fst m')) am ae && k_agree m' (S i) l'
+    | KPass _ _, KR done fl am ae | KFail _, KR done fl am ae =>
+      let m' := run_seg 14 m i false in
+      eqb done (res_is (thr_at m' i) RDone)
+      && (fl =? flying (fst m')) && avg_close (avgFlying (fst m')) am ae && k_agree m' (S i) l'
+    | _, _ => false
+    end
+  end.
+
+Definition k_agrees (c : config) (t0 : Z) (ws : Z * Z) (l : list (cop * cobs)) : bool :=
+  let ops := map fst l in
+  rel_close (window_scale c) (fst ws) (snd ws)
+  && k_agree (start c t0 (k_calls ops 0 ops)) 0 l.
+
+(* -- prop: the property's own counts.  Under a forced schedule every call takes its decision in one
+   uninterrupted segment ([KAllow], [KDecide]); ordered by these segments the calls form a history of
+   Allow / Pass / Fail events in which "in flight" = promises handed out - promises resolved is what the
+   executor counted (never what the shedder believes): the sequential judge applies to it as it is.
+   A dropper that is still parked before droppedRecently.Set(true) only makes the shedder shed LESS than
+   the history permits (the "only if" direction never needs it, the "does shed" direction needs CPU >=
+   threshold NOW). -- *)
+(* in-flight = promises handed out - promises resolved, counted from the verdicts alone; the shedder's own
+   counter (compared with the interleaving model in [k_agree]) plays no part in the judgement *)
+Fixpoint k_core (afl : Z) (l : list (cop * cobs)) : option (list (op * oobs)) :=
+  match l with
+  | [] => Some []
+  | x :: l' =>
+    let '(afl', y) :=
+      match x with
+      | (KAllow now c1 c2, KA shed _ mp rt am ae cm ce) | (KDecide _ now c1 c2, KA shed _ mp rt am ae cm ce) =>
+        let a := if shed then afl else afl + 1 in (a, Some (OAllow now c1 c2, OA shed a mp rt am ae cm ce))
+      | (KPass id now, KR done _ am ae) =>
+        let a := if done then afl - 1 else afl in (a, Some (OPass id now, OR done a am ae))
+      | (KFail id, KR done _ am ae) =>
+        let a := if done then afl - 1 else afl in (a, Some (OFail id, OR done a am ae))
+      | (KEnter, KN _ _ _ _) | (KFinish _, KN _ _ _ _) => (afl, Some (OFail (-1), OSkip))
+      | _ => (afl, None)
+      end in
+    match y, k_core afl' l' with
+    | Some z, Some r => Some (z :: r)
+    | _, _ => None
+    end
+  end.
+
+Definition k_prop (excl : bool) (c : config) (t0 : Z) (ws : Z * Z) (l : list (cop * cobs)) : bool :=
+  match k_core 0 l with
+  | Some ops => prop_gen excl (mkCase c t0 true false true ws ops)
+  | None => false
+  end.
+
 Inductive case :=
 | CShed (c : scase)
+| CConc (c : config) (t0 : Z) (ws : Z * Z) (l : list (cop * cobs))
 | CMulti (l : list scase)     (* several shedders of one process, operations interleaved, Disable() in between *)
 | CWReal (c : config) (t0 : Z) (l : list (wrop * wrobs))
 | CWrap (l : list (wreq * wobs))
@@ -460,6 +612,7 @@ Inductive case :=
 Definition agrees (c : case) : bool :=
   match c with
   | CShed c => s_agrees c | CMulti l => forallb s_agrees l | CWReal c t0 l => wr_agrees c t0 l
+  | CConc c t0 ws l => k_agrees c t0 ws l
   | CWrap l => w_agrees l | CGroup k o => g_agrees k o
   end.
 
@@ -467,6 +620,7 @@ Definition agrees (c : case) : bool :=
 Definition prop_ok (c : case) : bool :=
   match c with
   | CShed c => prop_gen false c | CMulti l => forallb (prop_gen false) l | CWReal c t0 l => wr_prop false c t0 l
+  | CConc c t0 ws l => k_prop false c t0 ws l
   | CWrap l => w_prop l | CGroup k o => g_prop k o
   end.
 (* the property with shed_when_saturated's excluding hypothesis (Props.shed_when_saturated);
@@ -474,6 +628,7 @@ Definition prop_ok (c : case) : bool :=
 Definition prop_ok_excl (c : case) : bool :=
   match c with
   | CShed c => prop_gen true c | CMulti l => forallb (prop_gen true) l | CWReal c t0 l => wr_prop true c t0 l
+  | CConc c t0 ws l => k_prop true c t0 ws l
   | CWrap l => w_prop l | CGroup k o => g_prop k o
   end.
 
@@ -490,6 +645,10 @@ Fixpoint model_loop (s : state) (ops : list op) : list (res * Z * Z * Z) :=
 Definition model_obs (c : case) :=
   match c with
   | CShed c => (model_loop (init (ccfg c) (ct0 c)) (map fst (cops c)), [], [])
+  | CConc c t0 ws l =>
+    let ops := map fst l in
+    (map (fun t => (match tres t with Some r => r | None => RNoop end, tfl t, tmp t, trt t))
+         (snd (fold_left (fun m i => run_seg 14 m i false) (seq 0 (length ops)) (start c t0 (k_calls ops 0 ops)))), [], [])
   | CMulti l => (concat (map (fun c => model_loop (init (ccfg c) (ct0 c)) (map fst (cops c))) l), [], [])
   | CWReal c t0 l =>
     (match wr_scase true c t0 l with Some sc => model_loop (init c t0) (map fst (cops sc)) | None => [] end, [], [])
